@@ -19,7 +19,8 @@ Inductive dkind := DBool | DInt | DStr | DOptInt | DVecInt | DVecStr | DLevel.
 
 Inductive check :=
 | CLower (z : Z) | CUpper (z : Z) | CRange (lo hi : Z)
-| CValues (l : list str) | CMinLen (n : nat) | CMaxLen (n : nat).
+| CValues (l : list str) | CMinLen (n : nat) | CMaxLen (n : nat)
+| CIValues (l : list str).      (* values( list, ignore case) *)
 Inductive fmt := FUpper | FLower.
 Inductive card := CardNone | CardMax (n : Z) | CardExact (n : Z) | CardRange (lo hi : Z).
 
@@ -114,6 +115,7 @@ Definition run_check (c : check) (s : str) : res unit :=
   | CValues l => if str_in s l then Ok tt else Err EOutOfRange
   | CMinLen n => if Nat.ltb (length s) n then Err EUnderflow else Ok tt
   | CMaxLen n => if Nat.ltb n (length s) then Err EOverflow else Ok tt
+  | CIValues l => if str_in (map to_lower s) (map (map to_lower) l) then Ok tt else Err EOutOfRange
   end.
 
 (** the checks applied to std::to_string( n) (LevelCounter increment): for the
